@@ -70,9 +70,10 @@ def async_probe(ctx):
     rows = {}
     for l in out.split('\n'):
         t = l.split()
-        if len(t) == 6 and t[1] in ('S1', 'S2', 'S3'):
+        if len(t) == 6 and t[1] in ('S1', 'S2', 'S3', 'S4', 'S5'):
             rows[(t[0], t[1])] = dict(x.split('=', 1) for x in t[2:])
-    expect = {'S1': ('Pending', 'Ready(Some(10))'), 'S2': ('Ready(None)', 'Ready(None)'), 'S3': ('Pending', 'Ready(None)')}
+    expect = {'S1': ('Pending', 'Ready(Some(10))'), 'S2': ('Ready(None)', 'Ready(None)'), 'S3': ('Pending', 'Ready(None)'),
+              'S4': ('Pending', 'Ready(None)'), 'S5': ('Pending', 'Ready(Some(10))')}
     bad = []
     for ad in ('tokio', 'asyncstd'):
         for sit, (f, snd) in expect.items():
@@ -84,13 +85,13 @@ def async_probe(ctx):
             fired = int(r['wakes1']) > int(r['wakes0'])
             if r['first'] == 'Pending' and not fired:
                 ctx.violation({'monitor': 'adapter-stranded', 'adapter': ad, 'situation': sit},
-                              '%s adapter: poll_next returned Poll::Pending and the waker never fired after the later %s' % (ad, 'raise' if sit == 'S1' else 'close()'),
+                              '%s adapter: poll_next returned Poll::Pending and the waker never fired after the later %s' % (ad, 'raise' if sit in ('S1', 'S5') else 'close()'),
                               {'adapter': ad, 'situation': sit, 'row': r})
             elif (r['first'], r['second']) != (f, snd):
                 bad.append('%s %s: poll_next gave %s then %s, expected %s then %s' % (ad, sit, r['first'], r['second'], f, snd))
             else:
                 ctx.traces += 1
-    ctx.correspondence('async adapters: real Stream::poll_next (tokio, async-std) behaves as C11_adapter_* state, 3 situations x 2 adapters', not bad, bad)
+    ctx.correspondence('async adapters: real Stream::poll_next (tokio, async-std) behaves as C11_adapter_* state, 5 situations (two with a stale wake-up byte in the pipe) x 2 adapters', not bad, bad)
     # signal-hook-mio (mio 1.0): the instance registered as an event source of a real Poll
     mio = {}
     for l in out.split('\n'):
